@@ -24,8 +24,8 @@ pub struct Case {
     pub cuts: Vec<u16>,
 }
 
-pub const PAIRED_STYLES: [&str; 5] = ["Paired::ci", "default+extend", "extend_tuple", "append_pair_loop", "chunked_mixture"];
-pub const UNPAIRED_STYLES: [&str; 8] = ["Unpaired::ci", "from_iter+ci_mean", "default+extend", "extend_a+extend_b", "append_a/append_b", "append_pair+rest", "new(two Arithmetic states)", "stats_a_mut/stats_b_mut"];
+pub const PAIRED_STYLES: [&str; 7] = ["Paired::ci", "default+extend", "extend_tuple", "append_pair_loop", "chunked_mixture", "Paired::ci(sparse containers)", "extend(sparse containers)"];
+pub const UNPAIRED_STYLES: [&str; 10] = ["Unpaired::ci", "from_iter+ci_mean", "default+extend", "extend_a+extend_b", "append_a/append_b", "append_pair+rest", "new(two Arithmetic states)", "stats_a_mut/stats_b_mut", "Unpaired::ci(sparse containers)", "from_iter(sparse containers)"];
 
 fn to_f<F: Fl>(s: &Sample) -> Vec<F> {
     s.data.iter().map(|x| F::from64(x.0)).collect()
@@ -43,6 +43,17 @@ pub fn paired_style<F: Fl>(style: u8, conf: &Conf, a: &Vec<F>, b: &Vec<F>, cuts:
                 return Ok((i, p.sample_mean(), p.sample_count()));
             }
             1 => p.extend(a, b)?,
+            5 => {
+                // containers whose iterators have loose (and different) size_hint upper bounds
+                let (sa, sb) = (gen::sparse(a, 3 + a.len() as u64, 1 + cuts.len()), gen::sparse(b, 5 + b.len() as u64, 3));
+                let i = Paired::<F>::ci(c, &sa, &sb)?;
+                p.extend(&sa, &sb)?;
+                return Ok((i, p.sample_mean(), p.sample_count()));
+            }
+            6 => {
+                let (sa, sb) = (gen::sparse(a, 13 + a.len() as u64, 2), gen::sparse(b, 17 + b.len() as u64, 1 + cuts.len()));
+                p.extend(&sa, &sb)?
+            }
             2 => {
                 let t: Vec<(F, F)> = a.iter().copied().zip(b.iter().copied()).collect();
                 p.extend_tuple(&t)?;
@@ -82,7 +93,7 @@ fn paired_generic<F: Fl>(c: &Case, obs: &mut Obs) -> PResult {
     let n = c.a.len().min(c.b.len());
     let a: Vec<F> = to_f::<F>(&c.a)[..n].to_vec();
     let b: Vec<F> = to_f::<F>(&c.b)[..n].to_vec();
-    let style = c.style % 5;
+    let style = c.style % 7;
     let sname = PAIRED_STYLES[style as usize];
     obs.eval();
     obs.class(&format!("paired/{}/{}/{}", F::NAME, gen::n_bucket(n), c.conf.kind_name()));
@@ -228,6 +239,14 @@ pub fn unpaired_style<F: Fl>(style: u8, conf: &Conf, a: &Vec<F>, b: &Vec<F>) -> 
             u.extend_b(&rb)?;
             u.ci_mean(c)
         }
+        8 => {
+            let (sa, sb) = (gen::sparse(a, 23 + a.len() as u64, 2), gen::sparse(b, 29 + b.len() as u64, 4));
+            Unpaired::<F>::ci(c, &sa, &sb)
+        }
+        9 => {
+            let (sa, sb) = (gen::sparse(a, 31 + a.len() as u64, 1), gen::sparse(b, 37 + b.len() as u64, 2));
+            Unpaired::<F>::from_iter(&sa, &sb)?.ci_mean(c)
+        }
         6 => {
             let sa = <Arithmetic<F> as StatisticsOps<F>>::from_iter(a)?;
             let sb = <Arithmetic<F> as StatisticsOps<F>>::from_iter(b)?;
@@ -316,7 +335,7 @@ fn unpaired_generic<F: Fl>(c: &Case, obs: &mut Obs) -> PResult {
     let a: Vec<F> = to_f::<F>(&c.a);
     let b: Vec<F> = to_f::<F>(&c.b);
     let (na, nb) = (a.len(), b.len());
-    let style = c.style % 8;
+    let style = c.style % 10;
     let sname = UNPAIRED_STYLES[style as usize];
     obs.eval();
     obs.class(&format!("unpaired/{}/{}+{}/{}", F::NAME, gen::n_bucket(na), gen::n_bucket(nb), c.conf.kind_name()));
@@ -420,13 +439,13 @@ pub fn strategy(max_n: usize) -> impl Strategy<Value = Case> {
     any::<bool>().prop_flat_map(move |f32_| {
         let s = move || prop_oneof![12 => gen::sample_of(f32_, max_n, false).boxed(), 1 => constant_sample(f32_).boxed()];
         let pair = prop_oneof![19 => (s(), s()).boxed(), 1 => tied_sd_pair(f32_).boxed()];
-        (pair, gen::conf(), 0u8..8, gen::cuts(4)).prop_map(|((a, b), conf, style, cuts)| Case { a, b, conf, style, cuts })
+        (pair, gen::conf(), 0u8..70, gen::cuts(4)).prop_map(|((a, b), conf, style, cuts)| Case { a, b, conf, style, cuts })
     })
 }
 
 pub fn run(run: &mut Run) {
     run.technique = "proptest random search with shrinking; paired: differential bit-equality against Arithmetic on the differences; unpaired: exact-arithmetic reference with the documented effective dof and an independent t quantile; metamorphic mirror relation".into();
-    run.rule = "pairs of generated samples (f32/f64, sizes 2..2000 equal and unequal, independent scales giving variance ratios up to 2^±60, occasionally one constant sample) x confidences x 5 paired / 8 unpaired feeding styles; all length pairs (0..6)^2 for the DifferentSampleSizes rule; non-trivial = non-constant differences (paired), both samples non-constant, inside the conditioning domain and tolerance < 0.1 % of the half-width (unpaired)".into();
+    run.rule = "pairs of generated samples (f32/f64, sizes 2..2000 equal and unequal, independent scales giving variance ratios up to 2^±60, occasionally one constant sample) x confidences x 7 paired / 10 unpaired feeding styles (incl. containers whose iterators have loose size_hint bounds); all length pairs (0..6)^2 for the DifferentSampleSizes rule; non-trivial = non-constant differences (paired), both samples non-constant, inside the conditioning domain and tolerance < 0.1 % of the half-width (unpaired)".into();
     crate::meanref::selftest_into(run);
     let (cases, shards, max_n) = match run.tier {
         crate::engine::Tier::Quick => (60_000u32, 32usize, 1000usize),
@@ -454,7 +473,7 @@ pub fn run(run: &mut Run) {
             a: Sample { f32: f32_, shape: gen::SHAPES[sa].into(), data: crate::fl::xs(&gen::build_values(f32_, sa, 3, false, 0, &ra)) },
             b: Sample { f32: f32_, shape: gen::SHAPES[sb].into(), data: crate::fl::xs(&gen::build_values(f32_, sb, 5, true, eb, &rb)) },
             conf: Conf::new(kind, level),
-            style: (j % 8) as u8,
+            style: (j % 10) as u8,
             cuts: vec![],
         });
         for c in crate::engine::draw(&s, crate::engine::mix(seed_big, "large", j as u64), 1) {
